@@ -132,7 +132,10 @@ namespace ratio
                     return res;
             }
             else
+            { // a method without a return value: we execute its body..
+                m.invoke(ctx, exprs);
                 return scp.get_core().new_bool(true);
+            }
         }
 
         CORE_EXPORT id_expression::id_expression(const std::vector<riddle::id_token> &is) : riddle::ast::id_expression(is) {}
